@@ -23,6 +23,16 @@ func deepCopyValue(value any) any {
 			values[key] = deepCopyValue(item)
 		}
 		return values
+	case map[any]any:
+		// what the YAML decoder gives for a mapping whose keys are not all strings (`{0: debug, 1: info}`)
+		if v == nil {
+			return v
+		}
+		values := make(map[any]any, len(v))
+		for key, item := range v {
+			values[key] = deepCopyValue(item)
+		}
+		return values
 	case []string:
 		if v == nil {
 			return v
